@@ -182,7 +182,73 @@ Section LruFrame.
     - intros n s H. injection H as <- <-. split; [reflexivity|]. exists b. split; [exact B|].
       rewrite put_sys. cbn [s_syslines]. congruence.
   Qed.
+  (* the same with a predicate on the entries *)
+  Variable E : N -> sres -> Prop.
+  Definition lruE (st : sr_state) : Prop := forall k v, In (k, v) (s_lru st) -> E k v.
+
+  Lemma put_always_lruE st fo r : E fo r -> lruE st -> lruE (sr_put_always st fo r).
+  Proof.
+    intros QF L k v IN. unfold sr_put_always in IN. cbn [sr_cnt sr_set_lru s_lru] in IN.
+    unfold lru_put in IN. apply In_firstn in IN. destruct IN as [X|IN]; [inversion X; subst; exact QF|].
+    apply In_aremove in IN. eapply L; eauto.
+  Qed.
+  Lemma put_lruE st fo r : E fo r -> lruE st -> lruE (sr_put st fo r).
+  Proof. intros QF L. unfold sr_put. destruct (s_on st); [apply put_always_lruE; assumption|exact L]. Qed.
+  Lemma lruE_eq st st' : s_lru st' = s_lru st -> lruE st -> lruE st'.
+  Proof. intros X L k v IN. rewrite X in IN. eapply L; eauto. Qed.
+
+  Lemma loop_a_lruE fuel : forall st fo fo1 tried mx, E fo SD -> lruE st ->
+    lruE (fst (c_loop_a dated fuel bs f st fo fo1 tried mx)).
+  Proof.
+    induction fuel as [|k IH]; intros st fo fo1 tried mx QF L; cbn [c_loop_a]; [exact L|].
+    pose proof (find_line_lru st [] fo1) as E1. destruct (sr_find_line bs f st [] fo1) as [st1 r1]. cbn [fst] in E1.
+    assert (L1 : lruE st1) by (eapply lruE_eq; eauto).
+    destruct r1 as [[fo2 ln]| | |]; try exact L1; [|cbn [fst]; apply put_lruE; assumption].
+    pose proof (parse_lru st1 ln) as E2. destruct (sr_parse dated bs f st1 ln) as [st2 o]. cbn [fst] in E2.
+    assert (L2 : lruE st2) by (eapply lruE_eq; eauto).
+    destruct o as [dt|].
+    - destruct (line_fo_end bs (sl_parts ln)); cbn [fst]; exact L2.
+    - destruct (line_fo_begin bs (sl_parts ln)) as [lb|]; [|cbn [fst]; exact L2].
+      destruct tried; [apply IH; assumption|]. destruct (1 <? lb); [|apply IH; assumption].
+      destruct (range_get (s_range st2) (lb - 1)); apply IH; assumption.
+  Qed.
 End LruFrame.
+
+(* the entries of the find_sysline LRU cache after a miss: the old ones, and under the requested offset Done or the answer *)
+
+Lemma find_sysline_miss_entries dated bs (f : file) st fo st' r p : c_find_sysline dated bs f st fo = (st', r, p) ->
+  alookup fo (s_lru st) = None -> range_get (s_range st) fo = None -> alookup fo (s_syslines st) = None ->
+  forall k v, In (k, v) (s_lru st') ->
+    In (k, v) (s_lru st) \/ (k = fo /\ (v = SD \/ exists n s, v = SF n s /\ r = Found (n, s))).
+Proof.
+  intros C A1 A2 A3. unfold c_find_sysline in C.
+  assert (CS : exists stm, sr_check_store bs f st fo = (None, stm) /\ s_lru stm = s_lru st).
+  { unfold sr_check_store. unfold lru_get. rewrite A1.
+    destruct (s_on st); cbn [sr_cnt s_range s_syslines]; rewrite A2; cbn [sr_cnt s_range s_syslines]; rewrite A3;
+      eexists; split; reflexivity. }
+  destruct CS as (stm & CS & E1). rewrite CS in C.
+  set (E := fun k v => In (k, v) (s_lru st) \/ (k = fo /\ v = SD)).
+  assert (Lm : lruE E stm) by (intros k v IN; left; rewrite <- E1; exact IN).
+  pose proof (loop_a_lruE dated bs f (fun _ => True) E (2 * length f + 3) stm fo fo false 0 (or_intror (conj eq_refl eq_refl)) Lm) as LA.
+  destruct (c_loop_a dated _ bs f stm fo fo false 0) as [st3 ra]. cbn [fst] in LA.
+  assert (FIN : forall stx, lruE E stx -> forall k v, In (k, v) (s_lru stx) ->
+            In (k, v) (s_lru st) \/ (k = fo /\ (v = SD \/ exists n s, v = SF n s /\ r = Found (n, s)))).
+  { intros stx L k v IN. destruct (L k v IN) as [X|[X Y]]; [left; exact X|right; split; [exact X|left; exact Y]]. }
+  destruct ra as [[[dt ln] fo1]| | |]; try (injection C as <- <- <-; apply FIN; exact LA).
+  pose proof (loop_b_lru dated bs f (2 * length f + 3) st3 fo1 [ln]) as LB.
+  destruct (c_loop_b dated _ bs f st3 fo1 [ln]) as [st4 rb]. cbn [fst] in LB.
+  assert (L4 : lruE E st4) by (eapply lruE_eq; eauto).
+  destruct rb as [[fo_b lns]| | |]; try (injection C as <- <- <-; apply FIN; exact L4).
+  unfold sr_store_found, sr_insert in C.
+  destruct (ss_begin bs (s_nid st4, dt, lns)) as [b|] eqn:B; [|injection C as <- <- <-; apply FIN; exact L4].
+  destruct (ss_end bs (s_nid st4, dt, lns)) as [e|]; [|injection C as <- <- <-; apply FIN; exact L4].
+  injection C as <- <- <-. intros k v IN.
+  unfold sr_put in IN. cbn [s_on] in IN. destruct (s_on st4).
+  - unfold sr_put_always, lru_put in IN. cbn [sr_cnt sr_set_lru s_lru] in IN. apply (In_firstn dated bs f (fun _ => True)) in IN.
+    destruct IN as [X|IN]; [inversion X; subst; right; split; [reflexivity|right; eexists _, _; split; reflexivity]|].
+    apply In_aremove in IN. exact (FIN st4 L4 k v IN).
+  - cbn [s_lru] in IN. exact (FIN st4 L4 k v IN).
+Qed.
 
 Lemma Forall2_rev {A B} (P : A -> B -> Prop) l1 l2 : Forall2 P l1 l2 -> Forall2 P (rev l1) (rev l2).
 Proof. induction 1 as [|a b l1 l2 H _ IH]; cbn [rev]; [constructor|]. apply Forall2_app; [exact IH|constructor; [exact H|constructor]]. Qed.
@@ -236,6 +302,10 @@ Section Walk.
   Definition stored (st : sr_state) (b : N) (yt : Z * Z) : Prop :=
     exists s, alookup b (s_syslines st) = Some s /\ ss_begin bs s = Some b /\ ss_dt s = snd yt.
 
+  (* every message in the find_sysline LRU cache is stored in `syslines` with that instant *)
+  Definition lruS (st : sr_state) : Prop := forall k n s, In (k, SF n s) (s_lru st) ->
+    exists b s', ss_begin bs s = Some b /\ alookup b (s_syslines st) = Some s' /\ ss_dt s' = ss_dt s.
+
   Lemma inst_group y b g : is_group (Dy y0) f b g -> inst y b = Some (ph y b).
   Proof.
     intro G0. pose proof (is_group_year dated_y bs f Hbs Hind y0 y b g G0) as G.
@@ -283,6 +353,29 @@ Section Walk.
     apply AS in IN. lia.
   Qed.
 
+  Lemma attempt_lru y x fo b st st1 p n s : YIy y st -> Abv x st -> fo < x -> b <= fo -> lruS st ->
+    c_find_sysline (Dy y) bs f st fo = (st1, Found (n, s), p) -> ss_begin bs s = Some b ->
+    s_syslines st1 = ainsert b s (s_syslines st) -> lruS st1.
+  Proof.
+    intros W A LT LB LS C BG INS k n' s' IN.
+    destruct (abv_miss y x st fo W A LT) as (M1 & M2 & M3).
+    destruct (find_sysline_miss_entries (Dy y) bs f _ _ _ _ _ C M1 M2 M3 _ _ IN) as [OLD|[-> [X|(n2 & s2 & X & Y)]]].
+    - destruct (LS _ _ _ OLD) as (b' & s2 & B' & LK & DT). exists b', s2. split; [exact B'|]. split; [|exact DT].
+      rewrite INS, alookup_ainsert. destruct (N.eqb_spec b' b) as [->|NE]; [|exact LK].
+      apply alookup_In in LK. apply (proj2 A) in LK. lia.
+    - discriminate X.
+    - assert (ES : s' = s) by congruence. subst s'. exists b, s. split; [exact BG|]. split; [|reflexivity].
+      rewrite INS, alookup_ainsert, N.eqb_refl. reflexivity.
+  Qed.
+
+  Lemma lruS_remove st b : lruS (c_remove_sysline bs st b).
+  Proof. intros k n s IN. rewrite (proj1 (remove_empty bs st b)) in IN. contradiction. Qed.
+
+  Lemma lruS_clear st : lruS (c_clear_syslines st).
+  Proof.
+    intros k n s IN. unfold c_clear_syslines, sr_lru_disable, sr_lru_enable in IN. destruct (s_on st); cbn in IN; contradiction.
+  Qed.
+
   Lemma remove_sys st b : s_syslines (c_remove_sysline bs st b) =
     match alookup b (s_syslines st) with Some _ => aremove b (s_syslines st) | None => s_syslines st end.
   Proof.
@@ -317,7 +410,7 @@ Section Walk.
         (if b <? 1 then (st1, Found y1) else if dt_before fa t1 then (st1, Found y1)
          else c_year_loop dated_y fuel' bs f tol fa st1 y1 (b - 1) (Some s)) /\
       YIy y1 st1 /\ Abv b st1 /\ alookup b (s_syslines st1) = Some s /\ ss_dt s = t1 /\ ss_begin bs s = Some b /\
-      (forall k, e <= k -> alookup k (s_syslines st1) = alookup k (s_syslines st)).
+      (forall k, e <= k -> alookup k (s_syslines st1) = alookup k (s_syslines st)) /\ (lruS st -> lruS st1).
   Proof.
     intros G0 EE. destruct (is_group_pos (Dy y0) f _ _ G0) as (PG0 & _).
     induction fm as [|k IH]; intros st y prev y1 t1 W A RD fuel FL; [discriminate RD|].
@@ -343,19 +436,20 @@ Section Walk.
                else c_year_loop dated_y fuel' bs f tol fa st2 y (b - 1) (Some s2)) /\
               YIy y st2 /\ Abv b st2 /\ alookup b (s_syslines st2) = Some s2 /\ ss_dt s2 = ph y b /\
               ss_begin bs s2 = Some b /\
-              (forall k0, e <= k0 -> alookup k0 (s_syslines st2) = alookup k0 (s_syslines st))).
+              (forall k0, e <= k0 -> alookup k0 (s_syslines st2) = alookup k0 (s_syslines st)) /\ (lruS st -> lruS st2)).
     { exists fuel0, st1, s. split; [lia|]. split.
       - rewrite DT. destruct (N.ltb_spec b 1); [reflexivity|]. destruct (dt_before fa (ph y b)); [reflexivity|].
         destruct (N.leb_spec (e - 1) (b - 1)); [lia|reflexivity].
       - split; [exact W1|]. split; [exact A1|]. split; [rewrite INS, alookup_ainsert, N.eqb_refl; reflexivity|].
-        split; [exact DT|]. split; [exact BG|exact KEEP]. }
+        split; [exact DT|]. split; [exact BG|]. split; [exact KEEP|].
+        intro LS. exact (attempt_lru y e (e - 1) b st st1 p n s W A ltac:(lia) ltac:(lia) LS C BG INS). }
     destruct prev as [p0|]; cbn [option_map] in RD.
     - rewrite DT. destruct ((ss_dt p0 <? ph y b)%Z && (tol <? ph y b - ss_dt p0)%Z)%bool eqn:J.
       + destruct (yi_remove dated_y bs f Hbs Hind y (y - 1)%Z st1 b W1) as [W2 _].
         pose proof (abv_remove e b s st st1 A INS ltac:(lia)) as A2.
-        destruct (IH _ _ (Some p0) _ _ W2 A2 RD fuel0 ltac:(lia)) as (fuel' & st2 & s2 & F2 & EQ & W3 & A3 & LK & D2 & B2 & K2).
+        destruct (IH _ _ (Some p0) _ _ W2 A2 RD fuel0 ltac:(lia)) as (fuel' & st2 & s2 & F2 & EQ & W3 & A3 & LK & D2 & B2 & K2 & LR2).
         exists fuel', st2, s2. split; [lia|]. split; [exact EQ|]. split; [exact W3|]. split; [exact A3|].
-        split; [exact LK|]. split; [exact D2|]. split; [exact B2|].
+        split; [exact LK|]. split; [exact D2|]. split; [exact B2|]. split; [|intros _; apply LR2; apply lruS_remove].
         intros k0 L0. rewrite K2 by exact L0. rewrite remove_lookup by lia. apply KEEP. exact L0.
       + inversion RD; subst y1 t1.
         destruct ACC as (fuel' & st2 & s2 & F2 & EQ & REST).
@@ -437,7 +531,7 @@ Section Walk.
     gw fm y (option_map ss_dt prev) R = Some l -> (fm * length R + 1 <= fuel)%nat ->
     exists st', c_year_loop dated_y fuel bs f tol fa st y (e - 1) prev = (st', Found (fin y l)) /\
       YIy (fin y l) st' /\ Forall2 (stored st') (firstn (length l) R) l /\
-      (forall k, e <= k -> alookup k (s_syslines st') = alookup k (s_syslines st)).
+      (forall k, e <= k -> alookup k (s_syslines st') = alookup k (s_syslines st)) /\ (lo = 0 -> lruS st -> lruS st').
   Proof.
     intro MIN. induction R as [|b R' IH]; intros e RC NE st y prev l fuel W A GW FL; [congruence|]. clear NE.
     destruct RC as [(g0 & G0 & EE) RC'].
@@ -445,7 +539,7 @@ Section Walk.
     cbn [gwalk] in GW. destruct (gredate inst tol fm y (option_map ss_dt prev) b) as [y1 t1| |] eqn:RD; try discriminate.
     cbn [length] in FL.
     destruct (redate_loop e b g0 G0 EE fm st y prev y1 t1 W A RD fuel ltac:(nia))
-      as (fuel' & st1 & s & F1 & EQ & W1 & A1 & LK & DT & BG & KEEP).
+      as (fuel' & st1 & s & F1 & EQ & W1 & A1 & LK & DT & BG & KEEP & LR1).
     rewrite EQ. clear EQ.
     assert (ONE : Forall2 (stored st1) (firstn (length [(y1, t1)]) (b :: R')) [(y1, t1)]).
     { cbn. constructor; [|constructor]. exists s. cbn [snd]. auto. }
@@ -457,9 +551,9 @@ Section Walk.
       subst R'.
       assert (l = [(y1, t1)]).
       { destruct (dt_before fa t1); [congruence|]. cbn in GW. congruence. }
-      subst l. exists st1. cbn [fin]. split; [reflexivity|]. split; [exact W1|]. split; [exact ONE|exact KEEP]. }
+      subst l. exists st1. cbn [fin]. split; [reflexivity|]. split; [exact W1|]. split; [exact ONE|]. split; [exact KEEP|intros _; exact LR1]. }
     destruct (dt_before fa t1) eqn:STOP.
-    { injection GW as <-. exists st1. cbn [fin]. split; [reflexivity|]. split; [exact W1|]. split; [exact ONE|exact KEEP]. }
+    { injection GW as <-. exists st1. cbn [fin]. split; [reflexivity|]. split; [exact W1|]. split; [exact ONE|]. split; [exact KEEP|intros _; exact LR1]. }
     destruct (gw fm y1 (Some t1) R') as [l'|] eqn:GW'; [|discriminate]. cbn [option_map] in GW. injection GW as <-.
     cbn [fin length firstn].
     destruct R' as [|b' R''].
@@ -469,13 +563,13 @@ Section Walk.
         as (st' & s2 & EQ & W2 & LK2 & BG2 & DT2 & K2).
       exists st'. split; [exact EQ|]. split; [exact W2|]. split.
       + constructor; [|constructor]. exists s2. cbn [snd]. split; [exact LK2|]. split; [exact BG2|congruence].
-      + intros k L0. rewrite K2 by lia. apply KEEP. exact L0.
+      + split; [intros k L0; rewrite K2 by lia; apply KEEP; exact L0|intros Z0; lia].
     - destruct (IH b RC' ltac:(discriminate) st1 y1 (Some s) l' fuel' W1 A1
                   ltac:(cbn [option_map]; rewrite DT; exact GW') ltac:(cbn [length] in *; nia))
-        as (st' & EQ & W2 & F2 & K2).
+        as (st' & EQ & W2 & F2 & K2 & LR2).
       exists st'. split; [exact EQ|]. split; [exact W2|]. split.
       + constructor; [|exact F2]. exists s. cbn [snd]. split; [rewrite K2 by lia; exact LK|]. auto.
-      + intros k L0. rewrite K2 by lia. apply KEEP. exact L0.
+      + split; [intros k L0; rewrite K2 by lia; apply KEEP; exact L0|intros Z0 LS; apply (LR2 Z0); apply LR1; exact LS].
   Qed.
 
   Lemma abv_clear x st : Abv x (c_clear_syslines st).
@@ -501,7 +595,8 @@ Section Walk.
   Theorem yearless_walk0 fm st Y l fuel : lr_inv bs f (s_lr st) ->
     gw fm Y None (rev offs) = Some l -> (fm * length offs + 1 <= fuel)%nat ->
     exists st', c_year_loop dated_y fuel bs f tol fa (c_clear_syslines st) Y (lenN f - 1) None = (st', Found (fin Y l)) /\
-      YIy (fin Y l) st' /\ Forall2 (stored st') (firstn (length l) (rev offs)) l.
+      YIy (fin Y l) st' /\ Forall2 (stored st') (firstn (length l) (rev offs)) l /\
+      (first_dated_offset (Dy y0) f = 0 -> offs <> [] -> lruS st').
   Proof.
     intros L GW FL. destruct (yi_clear dated_y bs f Y st L) as [W _].
     destruct (rev offs) as [|b R'] eqn:ER.
@@ -510,14 +605,16 @@ Section Walk.
         destruct (syslines_at (Dy y0) f); [reflexivity|discriminate]. }
       cbn in GW. injection GW as <-. cbn [fin length firstn].
       destruct (no_groups_loop (c_clear_syslines st) Y (lenN f - 1) None fuel NG W ltac:(lia)) as (st' & EQ & W').
-      exists st'. split; [exact EQ|]. split; [exact W'|constructor].
+      exists st'. split; [exact EQ|]. split; [exact W'|]. split; [constructor|].
+      intros _ NE. exfalso. apply NE. unfold offs. rewrite NG. reflexivity.
     - pose proof rchain_top as RC. fold offs in RC. rewrite ER in RC.
       assert (MIN : forall b0 g, is_group (Dy y0) f b0 g -> first_dated_offset (Dy y0) f <= b0).
       { intros b0 g G. exact (with_offsets_ge _ _ _ _ G). }
       assert (LEN : length (b :: R') = length offs) by (rewrite <- ER; apply rev_length).
       destruct (year_loop_walk fm _ MIN (b :: R') (lenN f) RC ltac:(discriminate) (c_clear_syslines st) Y None l fuel W
-                  (abv_clear _ _) GW ltac:(rewrite LEN; exact FL)) as (st' & EQ & W' & F2 & _).
-      exists st'. auto.
+                  (abv_clear _ _) GW ltac:(rewrite LEN; exact FL)) as (st' & EQ & W' & F2 & _ & LR).
+      exists st'. split; [exact EQ|]. split; [exact W'|]. split; [exact F2|].
+      intros Z0 _. apply (LR Z0). apply lruS_clear.
   Qed.
 End Walk.
 
@@ -531,6 +628,22 @@ Proof. revert y; induction l as [|[a b] l IH]; intro y; cbn; [reflexivity|apply 
 
 (* (b) the reverse pass is the generic walk: it ends with the year of the topmost message walked, in the invariant of
    that year, and `syslines` holds every message walked with the instant the walk gave it *)
+Theorem yearless_walk_gwalk_lru dated_y bs (f : file) tol fa fm st Y l fuel : 0 < bs ->
+  (forall y y' l, dated_y (Some y) l = None <-> dated_y (Some y') l = None) ->
+  lr_inv bs f (s_lr st) ->
+  let begins := map fst (syslines_at (dated_y (Some Y)) f) in
+  gwalk (inst dated_y f) tol (dt_before fa) fm Y None (rev begins) = Some l ->
+  (fm * length begins + 1 <= fuel)%nat ->
+  let res := c_year_loop dated_y fuel bs f tol fa (c_clear_syslines st) Y (lenN f - 1) None in
+  snd res = Found (fin Y l) /\ YI dated_y bs f (fin Y l) (fst res) /\
+  Forall2 (stored bs (fst res)) (firstn (length l) (rev begins)) l /\
+  (first_dated_offset (dated_y (Some Y)) f = 0 -> begins <> [] -> lruS bs (fst res)).
+Proof.
+  intros H HI L begins GW FL res.
+  destruct (yearless_walk0 dated_y bs f H HI tol fa Y fm st Y l fuel L GW FL) as (st' & EQ & W & F2 & LR).
+  subst res. rewrite EQ. auto.
+Qed.
+
 Theorem yearless_walk_gwalk dated_y bs (f : file) tol fa fm st Y l fuel : 0 < bs ->
   (forall y y' l, dated_y (Some y) l = None <-> dated_y (Some y') l = None) ->
   lr_inv bs f (s_lr st) ->
@@ -542,12 +655,44 @@ Theorem yearless_walk_gwalk dated_y bs (f : file) tol fa fm st Y l fuel : 0 < bs
   Forall2 (stored bs (fst res)) (firstn (length l) (rev begins)) l.
 Proof.
   intros H HI L begins GW FL res.
-  destruct (yearless_walk0 dated_y bs f H HI tol fa Y fm st Y l fuel L GW FL) as (st' & EQ & W & F2).
-  subst res. rewrite EQ. auto.
+  destruct (yearless_walk_gwalk_lru dated_y bs f tol fa fm st Y l fuel H HI L GW FL) as (A & B & C & _). auto.
 Qed.
 
 (* ... and with the oracle's years being calendar years (every message has a month, a day and a time of day, read in the
    zone off), 25 h tolerance and no --dt-after: the loop computes Model/Year.v assign_years (C11) *)
+Theorem yearless_walk_assign_years_lru dated_y bs (f : file) off msgs fm st Y ys fuel : 0 < bs ->
+  (forall y y' l, dated_y (Some y) l = None <-> dated_y (Some y') l = None) ->
+  lr_inv bs f (s_lr st) ->
+  let begins := map fst (syslines_at (dated_y (Some Y)) f) in
+  Forall2 (fun b m => forall y, inst dated_y f y b = Year.with_year off y m) begins msgs ->
+  Year.assign_years fm off Y msgs = Some ys ->
+  (fm * length msgs + 1 <= fuel)%nat ->
+  let res := c_year_loop dated_y fuel bs f Year.TOL None (c_clear_syslines st) Y (lenN f - 1) None in
+  snd res = Found (match ys with [] => Y | (y, _) :: _ => y end) /\
+  YI dated_y bs f (match ys with [] => Y | (y, _) :: _ => y end) (fst res) /\
+  Forall2 (stored bs (fst res)) begins ys /\
+  (first_dated_offset (dated_y (Some Y)) f = 0 -> begins <> [] -> lruS bs (fst res)).
+Proof.
+  intros H HI L begins F2 AY FL res.
+  unfold Year.assign_years in AY. rewrite walk_gwalk in AY.
+  destruct (gwalk (Year.with_year off) Year.TOL (fun _ => false) fm Y None (rev msgs)) as [l|] eqn:GW; [|discriminate].
+  cbn [option_map] in AY. injection AY as <-.
+  rewrite <- (gwalk_rename (inst dated_y f) (Year.with_year off) Year.TOL (fun _ => false) fm (rev begins) (rev msgs)
+                (Forall2_rev _ _ _ F2)) in GW.
+  pose proof (Forall2_len _ _ _ F2) as LEN.
+  destruct (yearless_walk_gwalk_lru dated_y bs f Year.TOL None fm st Y l fuel H HI L GW ltac:(fold begins; rewrite LEN; exact FL))
+    as (R1 & R2 & R3 & R4).
+  fold begins in R3, R4. fold res in R1, R2, R3, R4.
+  pose proof (gwalk_length (inst dated_y f) Year.TOL (fun _ => false) fm (fun _ => eq_refl) _ _ _ _ GW) as LL.
+  rewrite firstn_all2 in R3 by lia.
+  assert (FY : fin Y l = match rev l with [] => Y | (y, _) :: _ => y end).
+  { destruct (rev l) as [|[y t] r] eqn:ER.
+    - apply (f_equal (@rev _)) in ER. rewrite rev_involutive in ER. subst l. reflexivity.
+    - apply (f_equal (@rev _)) in ER. rewrite rev_involutive in ER. subst l. cbn [rev]. apply fin_last. }
+  rewrite <- FY. split; [exact R1|]. split; [exact R2|]. split; [|exact R4].
+  apply Forall2_rev in R3. rewrite rev_involutive in R3. exact R3.
+Qed.
+
 Theorem yearless_walk_assign_years dated_y bs (f : file) off msgs fm st Y ys fuel : 0 < bs ->
   (forall y y' l, dated_y (Some y) l = None <-> dated_y (Some y') l = None) ->
   lr_inv bs f (s_lr st) ->
@@ -561,23 +706,7 @@ Theorem yearless_walk_assign_years dated_y bs (f : file) off msgs fm st Y ys fue
   Forall2 (stored bs (fst res)) begins ys.
 Proof.
   intros H HI L begins F2 AY FL res.
-  unfold Year.assign_years in AY. rewrite walk_gwalk in AY.
-  destruct (gwalk (Year.with_year off) Year.TOL (fun _ => false) fm Y None (rev msgs)) as [l|] eqn:GW; [|discriminate].
-  cbn [option_map] in AY. injection AY as <-.
-  rewrite <- (gwalk_rename (inst dated_y f) (Year.with_year off) Year.TOL (fun _ => false) fm (rev begins) (rev msgs)
-                (Forall2_rev _ _ _ F2)) in GW.
-  pose proof (Forall2_len _ _ _ F2) as LEN.
-  destruct (yearless_walk_gwalk dated_y bs f Year.TOL None fm st Y l fuel H HI L GW ltac:(fold begins; rewrite LEN; exact FL))
-    as (R1 & R2 & R3).
-  fold begins in R3. fold res in R1, R2, R3.
-  pose proof (gwalk_length (inst dated_y f) Year.TOL (fun _ => false) fm (fun _ => eq_refl) _ _ _ _ GW) as LL.
-  rewrite firstn_all2 in R3 by lia.
-  assert (FY : fin Y l = match rev l with [] => Y | (y, _) :: _ => y end).
-  { destruct (rev l) as [|[y t] r] eqn:ER.
-    - apply (f_equal (@rev _)) in ER. rewrite rev_involutive in ER. subst l. reflexivity.
-    - apply (f_equal (@rev _)) in ER. rewrite rev_involutive in ER. subst l. cbn [rev]. apply fin_last. }
-  rewrite <- FY. split; [exact R1|]. split; [exact R2|].
-  apply Forall2_rev in R3. rewrite rev_involutive in R3. exact R3.
+  destruct (yearless_walk_assign_years_lru dated_y bs f off msgs fm st Y ys fuel H HI L F2 AY FL) as (A & B & C & _). auto.
 Qed.
 
 (* ---------------------------------------------------------------- the driver: stages 1-2 leave to stage 3 a reader that
@@ -594,6 +723,30 @@ Proof.
   specialize (H (lines f)). lia.
 Qed.
 
+Theorem yearless_stage2_lru dated_y bs (f : file) off msgs Y ys fb plan st : 0 < bs ->
+  (forall y y' l, dated_y (Some y) l = None <-> dated_y (Some y') l = None) ->
+  let stream := b_stream (l_blk (s_lr st)) in
+  let st1 := if stream then sr_set_lr (lr_set_blk (b_disable_drop (l_blk (s_lr st))) (s_lr st)) st else st in
+  lr_inv bs f (s_lr st1) -> 0 < lenN f ->
+  let begins := map fst (syslines_at (dated_y (Some Y)) f) in
+  Forall2 (fun b m => forall y, inst dated_y f y b = Year.with_year off y m) begins msgs ->
+  Year.assign_years 2 off Y msgs = Some ys ->
+  exists st', c_stream_year dated_y bs f Year.TOL Y None fb plan st =
+                c_stream_win (dated_y None) bs f None fb (if stream then [] else plan) st' /\
+              YI dated_y bs f (match ys with [] => Y | (y, _) :: _ => y end) st' /\
+              Forall2 (stored bs st') begins ys /\
+              (first_dated_offset (dated_y (Some Y)) f = 0 -> begins <> [] -> lruS bs st').
+Proof.
+  intros H HI stream st1 L PF begins F2 AY.
+  pose proof (Forall2_len _ _ _ F2) as LEN. pose proof (begins_len (dated_y (Some Y)) f) as BL. fold begins in BL.
+  destruct (yearless_walk_assign_years_lru dated_y bs f off msgs 2 st1 Y ys (Datatypes.S (2 * length f)) H HI L F2 AY ltac:(lia))
+    as (R1 & R2 & R3 & R4).
+  unfold c_stream_year. fold stream. fold st1. unfold fileoffset_last.
+  destruct (N.eqb_spec (lenN f) 0) as [E|_]; [lia|].
+  destruct (c_year_loop dated_y (Datatypes.S (2 * length f)) bs f Year.TOL None (c_clear_syslines st1) Y (lenN f - 1) None)
+    as [st' r]. cbn [fst snd] in R1, R2, R3, R4. subst r. exists st'. auto.
+Qed.
+
 Theorem yearless_stage2 dated_y bs (f : file) off msgs Y ys fb plan st : 0 < bs ->
   (forall y y' l, dated_y (Some y) l = None <-> dated_y (Some y') l = None) ->
   let stream := b_stream (l_blk (s_lr st)) in
@@ -608,13 +761,8 @@ Theorem yearless_stage2 dated_y bs (f : file) off msgs Y ys fb plan st : 0 < bs 
               Forall2 (stored bs st') begins ys.
 Proof.
   intros H HI stream st1 L PF begins F2 AY.
-  pose proof (Forall2_len _ _ _ F2) as LEN. pose proof (begins_len (dated_y (Some Y)) f) as BL. fold begins in BL.
-  destruct (yearless_walk_assign_years dated_y bs f off msgs 2 st1 Y ys (Datatypes.S (2 * length f)) H HI L F2 AY ltac:(lia))
-    as (R1 & R2 & R3).
-  unfold c_stream_year. fold stream. fold st1. unfold fileoffset_last.
-  destruct (N.eqb_spec (lenN f) 0) as [E|_]; [lia|].
-  destruct (c_year_loop dated_y (Datatypes.S (2 * length f)) bs f Year.TOL None (c_clear_syslines st1) Y (lenN f - 1) None)
-    as [st' r]. cbn [fst snd] in R1, R2, R3. subst r. exists st'. auto.
+  destruct (yearless_stage2_lru dated_y bs f off msgs Y ys fb plan st H HI L PF F2 AY) as (st' & A & B & C & _).
+  exists st'. auto.
 Qed.
 
 (* the hypotheses are satisfiable and the conclusion says something: the toy oracle dy2 on "2z\n2b\n", tolerance 10:
